@@ -1,6 +1,6 @@
 (* C16 — no data races (lockset soundness meta-theorem, instantiated by the lock table regenerated from /repo). *)
 From Coq Require Import List Arith Bool.
-From STH Require Import Lockset.
+From STH Require Import Lockset LockTable.
 Import ListNotations.
 
 (* Any well-formed trace of lock acquisitions/releases (exclusive or shared) and accesses in which every write of x
@@ -13,3 +13,26 @@ Theorem C16_lock_discipline_implies_race_freedom :
       access e1 = Some (x, w1) -> access e2 = Some (x, w2) -> w1 || w2 = true -> hb tr i j.
 Proof. exact lockset_sound. Qed.
 Print Assumptions C16_lock_discipline_implies_race_freedom.
+
+(* The same for guard SETS (a write holds every lock of the set exclusively, a read holds at least one): the shape of
+   the double-buffered pools, written under flush lock + pool lock and read under either. *)
+Theorem C16_guard_set_discipline_implies_race_freedom :
+  forall (G : var -> list lock) (tr : trace), wf tr -> disciplined_set G tr ->
+    forall (i j : nat) (t1 t2 : tid) (e1 e2 : ev) (x : var) (w1 w2 : bool),
+      i < j -> nth_error tr i = Some (t1, e1) -> nth_error tr j = Some (t2, e2) -> t1 <> t2 ->
+      access e1 = Some (x, w1) -> access e2 = Some (x, w2) -> w1 || w2 = true -> hb tr i j.
+Proof. exact lockset_set_sound. Qed.
+Print Assumptions C16_guard_set_discipline_implies_race_freedom.
+
+(* From the lock table to race freedom: if the table (one row per field access of the source, with the locks the
+   function holds there) is consistent with the guard sets - a boolean check, discharged by vm_compute on the table
+   REGENERATED from /repo on every run (build/gen/LockTableGen.v, Lemma table_ok) - then every well-formed trace whose
+   accesses are instances of rows is free of data races. *)
+Theorem C16_consistent_table_implies_race_freedom :
+  forall (G : var -> list lock) (t : list row) (tr : trace),
+    table_consistent G t = true -> wf tr -> follows t tr ->
+    forall (i j : nat) (t1 t2 : tid) (e1 e2 : ev) (x : var) (w1 w2 : bool),
+      i < j -> nth_error tr i = Some (t1, e1) -> nth_error tr j = Some (t2, e2) -> t1 <> t2 ->
+      access e1 = Some (x, w1) -> access e2 = Some (x, w2) -> w1 || w2 = true -> hb tr i j.
+Proof. exact table_race_free. Qed.
+Print Assumptions C16_consistent_table_implies_race_freedom.
